@@ -166,7 +166,7 @@ let event_of_token (t : string) : mdev =
 type ctx = { h : harness; thr : bool; timeout : string; mutable ms : etag dstate; mutable last : snap;
              mutable status : lstatus; mutable connect_flushed : bool; mutable real_events : string list;
              mutable fails : fail list; mutable trace : string list; mutable steps : int; dist : (string, int) Hashtbl.t;
-             mutable since_lifecycle : string list; mutable awaited : bool }
+             mutable since_lifecycle : string list; mutable awaited : bool; mutable closed : bool }
 
 let add_fail c kind signature detail =
   if not (L.exists (fun f -> f.signature = signature) c.fails) then
@@ -181,6 +181,11 @@ let new_client (h : harness) (timeout : string) : snap =
 
 let send c (cmd : string) : snap =
   let s = parse_snap (ask c.h cmd) in
+  (* close is terminal: once close() was requested the client shuts down; it never reports Stopped again (a client in Stopped can
+     be restarted).  An Attempt right after the request is NOT judged: the threaded loop may find the reconnect timer elapsed in the
+     very iteration that consumed the close and begins (then abandons) an attempt - the code does that and the model agrees *)
+  if c.closed && L.mem "Stopped" s.evs then
+    add_fail c "property" "close-not-terminal" (Printf.sprintf "after the close request, %s produced the client events [%s]: a closed client came back to Stopped and can be started again" cmd (String.concat "," s.evs));
   c.real_events <- c.real_events @ s.evs; c.since_lifecycle <- c.since_lifecycle @ s.evs; c.last <- s; s
 
 let resp_of (s : snap) (pes : pevent list) : resp =
@@ -235,10 +240,12 @@ let check_other_fact c (before : snap) (s : snap) what =
 let sim_op c (o : (uop, string) cop) =
   let before = c.last in
   (match o with
-   | OpStart -> ignore (send c "KOP START"); c.since_lifecycle <- []
-   | OpStop None -> ignore (send c "KOP STOP"); c.since_lifecycle <- []
-   | OpStop (Some p) -> let s = send c ("KOP STOP " ^ p) in ev_slot := Some (resp_of s []); check_user_fact c before s "user-disconnect"; c.since_lifecycle <- []
-   | OpShutdown -> let s = send c "KOP SHUTDOWN" in ev_slot := Some (resp_of s []); check_user_fact c before s "reset"; c.since_lifecycle <- []
+   (* a start / stop handled AFTER a close is an artefact of this area's free event order (the real loops exit at the check that
+      follows the close): the terminal clause is only judged while no such request intervenes *)
+   | OpStart -> c.closed <- false; ignore (send c "KOP START"); c.since_lifecycle <- []
+   | OpStop None -> c.closed <- false; ignore (send c "KOP STOP"); c.since_lifecycle <- []
+   | OpStop (Some p) -> c.closed <- false; let s = send c ("KOP STOP " ^ p) in ev_slot := Some (resp_of s []); check_user_fact c before s "user-disconnect"; c.since_lifecycle <- []
+   | OpShutdown -> c.closed <- true; let s = send c "KOP SHUTDOWN" in ev_slot := Some (resp_of s []); check_user_fact c before s "reset"; c.since_lifecycle <- []
    | OpListener -> ignore (send c "KOP LISTENER")
    | OpUser p -> let s = send c ("KOP USER " ^ p) in ev_slot := Some (resp_of s []); check_user_fact c before s "user-event");
   sim_after_event c
@@ -392,7 +399,7 @@ let run_history (h : harness) (thr : bool) (timeout : string) (events : mdev lis
   let s0 = new_client h timeout in
   let tmo = if timeout = "max" then n_of_string "18446744073709551615999999999" else n_of_string timeout in
   let c = { h; thr; timeout; ms = dinit TDisconnected backoff_cfg tmo; last = s0; status = Running; connect_flushed = false;
-            real_events = []; fails = []; trace = []; steps = 0; dist; since_lifecycle = []; awaited = false } in
+            real_events = []; fails = []; trace = []; steps = 0; dist; since_lifecycle = []; awaited = false; closed = false } in
   L.iter (fun e -> do_event c e) events;
   settle c;
   if not (grammar_ok (parsed_real_events c)) then
@@ -496,7 +503,7 @@ let main (seed : int) (count : int) (harness_path : string) (extra : string list
     let n = 6 + rand_int r (if chance r 20 then 60 else 24) in
     let s0 = new_client h "30000000000" in
     let c = { h; thr; timeout = "30000000000"; ms = dinit TDisconnected backoff_cfg (n_of_string "30000000000"); last = s0; status = Running;
-              connect_flushed = false; real_events = []; fails = []; trace = []; steps = 0; dist; since_lifecycle = []; awaited = false } in
+              connect_flushed = false; real_events = []; fails = []; trace = []; steps = 0; dist; since_lifecycle = []; awaited = false; closed = false } in
     for _ = 1 to n do
       if c.status = Running then begin
         let e = gen_event r c in
